@@ -265,11 +265,22 @@ func RunReorgSync(p ReorgSyncPlan, res *Result) {
 		time.Sleep(10 * time.Millisecond)
 	}
 	// Safety of what is committed, at this quiescent point.
+	loneLiar := w.LiarAnsweredAlone(honest)
 	if v := w.ValidateStored(len(p.Liars) == 0 || true); v != "" {
-		res.Violate("c03/l2/"+classOf(v), "after a reorganisation during filter-header sync: "+v, witness())
+		// A liar that answered while no honest peer had completed its
+		// handshake had nobody disagreeing with it: the statement's premise
+		// (responding peers disagree, one of them honest) does not hold for
+		// what it got committed, nor for the bans that follow from it
+		// (listed under C04/C13 as "lone liar believed").
+		if loneLiar != "" {
+			res.Inconcl("a liar answered before any honest peer was connected (premise of the statement not met)")
+			res.Count("lone_liar_rounds_not_asserted", 1)
+		} else {
+			res.Violate("c03/l2/"+classOf(v), "after a reorganisation during filter-header sync: "+v, witness())
+		}
 	}
 	for _, hp := range honest {
-		if w.Svc.IsBanned(hp.Addr) {
+		if w.Svc.IsBanned(hp.Addr) && loneLiar == "" {
 			res.Violate("c03/l2/honest-peer-banned/reorg-during-sync",
 				"an honest peer (it answered every request at once and truthfully) was banned after a reorganisation arrived during filter-header sync", witness())
 			break
@@ -282,7 +293,7 @@ func RunReorgSync(p ReorgSyncPlan, res *Result) {
 				told = true
 			}
 		}
-		if conv && told && !w.Svc.IsBanned(addr) {
+		if conv && told && !w.Svc.IsBanned(addr) && loneLiar == "" {
 			res.Violate("c03/l2/liar-not-banned/"+l.Lies[0].Kind, "a peer that served a provably false filter header for a block of the final chain is not banned although filter headers were committed past that height", witness())
 		}
 	}
